@@ -197,7 +197,9 @@ def run(ctx):
         elif kind == "rx":
             p = derive_regex(rng, base)
         else:
-            p = base if rng.random() < 0.6 else derive_pattern(rng, base, "", "")
+            # the strict operators read wildcard characters literally too: glob / LIKE patterns that WOULD match some name
+            r_ = rng.random()
+            p = base if r_ < 0.45 else derive_pattern(rng, base, "", "") if r_ < 0.65 else derive_pattern(rng, base, "*", "?") if r_ < 0.9 else derive_pattern(rng, base, "%", "_")
         if not p or (kind, p) in seen or qlib.quote(p) is None or "\n" in p:
             continue
         if any(ord(c) > 127 for c in p):
@@ -349,7 +351,7 @@ def run(ctx):
             st["hist"]["combo_ok"] += 1
     ctx.coverage.update(
         evaluations=st["evaluations"], distinct_nontrivial=len(st["distinct"]), traces_validated_against_impl=st["agreed"],
-        rule="(plus: one pattern text read by two different operators in one query, joined by and/or, must give the intersection/union of the single-operator results) %d file names over letters of both cases, digits, space and the regex metacharacters %r; patterns derived from the names (substring -> wildcard, one char -> single wildcard, case flips, edits, inserted metacharacters) for glob (= / !=), LIKE (like / notlike), regex (=~ / !=~) and exact (=== / !==); the real binary's rows are compared with (a) the textbook verdict (glob_spec / like_spec / equality evaluated in Coq) and (b) the faithful model (generated tables + regex engine); negatives must be exact complements. non-trivial = a pattern selecting a proper non-empty subset" % (len(names), META),
+        rule="(plus: one pattern text read by two different operators in one query, joined by and/or, must give the intersection/union of the single-operator results) %d file names over letters of both cases, digits, space and the regex metacharacters %r; patterns derived from the names (substring -> wildcard, one char -> single wildcard, case flips, edits, inserted metacharacters) for glob (= / !=), LIKE (like / notlike), regex (=~ / !=~) and exact (=== / !==, also on patterns with wildcard characters, which they read literally); the real binary's rows are compared with (a) the textbook verdict (glob_spec / like_spec / equality evaluated in Coq) and (b) the faithful model (generated tables + regex engine); negatives must be exact complements. non-trivial = a pattern selecting a proper non-empty subset" % (len(names), META),
         samples=st["samples"], distribution=dict(st["hist"]))
     return ctx.finish(trusted=[
         "regex crate semantics are modelled by lib/Regex.v + lib/RegexParse.v on an ASCII subset ((?i) = ASCII case folding; Unicode simple case folding of the real crate is outside the model and outside the generated alphabet)",
